@@ -14,6 +14,9 @@ CONSTANTS
   Window = 2
   Retention = 2
   BurstSizes = {1, 2}
+  PskIds = {}
+  PskValues = {"none"}
+  Deviations = {"F12"}
   MaxApps = 0
   Depth = 1000
   WProgress = 60
